@@ -250,7 +250,7 @@ func runMat(c *vrt.Ctx) {
 		matCase(c, t, "VecDense", vview, vn, 1, func(a, _ int) float64 { return vs[a] },
 			func() ([]byte, error) { return v.MarshalBinary() },
 			func(w *limitedWriter) (int, error) { return v.MarshalBinaryTo(w) })
-		if c.WantSample() && i%97 == 5 {
+		if c.WantSample() && i == 5 {
 			c.Sample(map[string]any{"codec": "mat.Dense", "rows": rows, "cols": cols, "stride": m.RawMatrix().Stride, "view": view, "first_elements_bits": fmt.Sprintf("%#x %#x", math.Float64bits(at(0, 0)), math.Float64bits(at(rows-1, cols-1)))})
 		}
 		total.merge(t)
